@@ -22,7 +22,9 @@ CHECK = dict(
          'exactly the declared size ending at a PROT_NONE page (second placement: starting right after one); the result is compared '
          'with an independent 64-bit reference parser, then validate/get_format/tostring run on the structure left behind; a call '
          'that does not return within one to two 4 s watchdog periods is reported as an endless loop, and after 2 of them the '
-         'worker stops and hands in everything found. evaluations = decode calls with the end-guarded placement on inputs the case '
+         'worker stops and hands in everything found. Call-history clause: every deviating header at full length is decoded, then '
+         'its template at the same address and length, then the header again, without resetting the library in between; each result '
+         'is held against the same contract. evaluations = decode calls with the end-guarded placement on inputs the case '
          'owns; distinct_nontrivial = distinct (template, input bytes, declared length) triples, counted with a hash set; '
          'distinct_observations = distinct (decoded structure, accepted?) pairs handed to the helpers. '
          'Big-header family: full product of 18 fmt-extension lengths (0 .. 16 MiB, on both sides of 2^8, 2^12, 2^16, 2^17, 2^24) x 5 '
@@ -38,8 +40,8 @@ CHECK = dict(
          'loop is a violation (a family stops at its first one)',
     bounds=dict(quick='L = 2 (65 793 strings); D = 2 deviating fields out of 13..21, all 9 templates (3271 single and 568 145 double '
                       'deviations), every truncation length; 1080 big headers (up to 16 MiB) x <= 19 lengths; ASan part: product family '
-                      '2 274 480 field combinations, dense family 970 299, truncation sweep D = 1 (110 292 + 9 x len decodes from '
-                      'exactly-sized heap blocks) and all strings of <= 2 bytes',
+                      '2 426 112 field combinations, dense family 970 299, truncation sweep D = 1 and all strings of <= 2 bytes (176 638 decodes '
+                      'from exactly-sized heap blocks); call-history clause on every deviating header at full length',
                 thorough='L = 3 (16.8 million strings); D = 2 over the full menus plus D = 3 over the core menus (3.4 million triple '
                          'deviations), all 9 templates, every truncation length, both guard placements at every length; big headers, '
                          'product and dense families as in quick; ASan truncation sweep D = 2 (13.6 million decodes)'),
